@@ -6,7 +6,8 @@ pub struct Signature(pub [u8; 64]);
 pub struct Topic(pub [u8; 32]);
 pub struct DecodeError { pub e: u8 }
 pub struct EncodeError { pub e: u8 }
-pub struct RecvErr { pub lagged: u64 }
+// tokio_stream::wrappers::errors::BroadcastStreamRecvError (its only variant)
+pub enum RecvErr { Lagged(u64) }
 pub struct PhantomData<X> { pub g: Ghost<Option<X>> }
 pub enum Poll<T> { Ready(T), Pending }
 
